@@ -1,6 +1,6 @@
 (** C02 — Only the benchmarked calls happen inside a sample's timed section.
     Statements only; each closed by [exact] of a lemma in Proofs/SampleTimed.v. *)
-From DivanV Require Import Base.Res Model.Sample Proofs.Sample Proofs.SampleTimed.
+From DivanV Require Import Base.Res Model.Sample Proofs.Sample Proofs.SampleTimed Proofs.SampleMeaning.
 Local Open Scope nat_scope.
 
 (** For every entry point, type shape, sample size, counter set, with and
@@ -82,3 +82,19 @@ Theorem C02_sample_figures : forall c s before,
   sample_figures c s before = Some (spec_figures c s).
 Proof. exact sample_figures_spec. Qed.
 Print Assumptions C02_sample_figures.
+
+(** What [sb_timed] means for ANY event list (in particular an implementation
+    log): nothing but calls between the two timestamps; generation, counting and
+    the one tally clear before the start; the snapshot after the end and before
+    every drop. *)
+Theorem C02_sb_timed_meaning : forall (l : list (oev N)),
+  sb_timed l = true ->
+  exists pre timed sync post,
+    l = pre ++ OTsStart :: timed ++ OTsEnd :: sync ++ OSnapshot :: post
+    /\ Forall (fun e => is_pre_ev e = true) pre
+    /\ length (filter is_clear pre) = 1
+    /\ Forall (fun e => is_timed_ev e = true) timed
+    /\ Forall (fun e => is_end_sync_ev e = true) sync
+    /\ Forall (fun e => is_post_ev e = true) post.
+Proof. exact (@sb_timed_meaning N). Qed.
+Print Assumptions C02_sb_timed_meaning.
